@@ -101,15 +101,18 @@ def _gen_coords(r, nr, gtype, counts, dim, zclass, dtype):
     arrays = []
     zconst = None
     for i, c in enumerate(counts):
-        if dtype in ('i4', 'i8', 'u2'):
+        if dtype in ('i4', 'i8', 'u2', '>i4'):
             hi = 60000 if dtype == 'u2' else 1 << 20
             lo = 0 if dtype == 'u2' else -(1 << 20)
-            a = nr.integers(lo, hi, size=(c, dim)).astype({'i4': np.int32, 'i8': np.int64, 'u2': np.uint16}[dtype])
+            a = nr.integers(lo, hi, size=(c, dim)).astype({'i4': np.int32, 'i8': np.int64, 'u2': np.uint16, '>i4': '>i4'}[dtype])
+        elif dtype == 'f2':
+            # half precision: multiples of 1/2 below 512 are exact
+            a = (nr.integers(-1000, 1000, size=(c, dim)) / 2.0).astype(np.float16)
         else:
             a = nr.uniform(-5000.0, 5000.0, size=(c, dim))
             if r.random() < 0.3:
                 a = np.round(a * 4) / 4          # dyadic values, exact in float32
-            dt = {'f4': np.float32, 'f8': np.float64}.get(dtype)
+            dt = {'f4': np.float32, 'f8': np.float64, '>f4': '>f4', '>f8': '>f8'}.get(dtype)
             if dtype == 'mixed':
                 dt = np.float32 if i % 2 == 0 else np.float64
             a = a.astype(dt)
@@ -172,7 +175,7 @@ def _gen_group(ctx, stream, idx, number, dim):
     r = ctx.rng(stream, idx * 16 + number)
     nr = ctx.np_rng(stream, idx * 16 + number)
     gtype = GTYPES[(idx + number + r.randrange(2)) % 5]
-    dtype = r.choice(['f4', 'f4', 'f8', 'f8', 'i4', 'i8', 'u2', 'mixed'])
+    dtype = r.choice(['f4', 'f4', 'f8', 'f8', 'i4', 'i8', 'u2', 'mixed', 'f2', '>f4', '>f8', '>i4'])
     zclass = r.choice(['const', 'vary', 'per-annotation']) if dim == 3 else '-'
     counts = _gen_counts(r, gtype)
     coords, zclass = _gen_coords(r, nr, gtype, counts, dim, zclass, dtype)
@@ -238,7 +241,8 @@ def _expected_arrays(spec):
     if kinds <= {'i', 'u'}:
         return [a.astype(np.float32) for a in spec['coords']], np.float32
     dt = np.result_type(*[a.dtype for a in spec['coords']])
-    return [np.ascontiguousarray(a) for a in spec['coords']], np.dtype(dt).type
+    # values are what counts (byte order and half precision are representation); parsed arrays are float64 iff the input is
+    return [np.ascontiguousarray(a) for a in spec['coords']], (np.float64 if np.dtype(dt).itemsize == 8 else np.float32)
 
 
 def _standard_decode(item, ct):
@@ -352,6 +356,42 @@ def _observe_group(ctx, spec, g, path, ct, reqs, pending, base):
                              site=f'get_measurements/{path}')
     # model: L0 decode of what is stored + L1 stored attributes
     _model_group(ctx, spec, g, path, ct, reqs, pending, case)
+    if path == 'annread' and spec['gtype'] in ('POLYLINE', 'POLYGON'):
+        _corrupt_index_list(ctx, spec, g, ct, reqs, pending, case)
+
+
+def _corrupt_index_list(ctx, spec, g, ct, reqs, pending, case):
+    """a parsed group whose LongPrimitivePointIndexList is damaged must refuse to return graphic data"""
+    from copy import deepcopy
+    il = np.frombuffer(g.LongPrimitivePointIndexList, '<i4').astype(np.int64)
+    n = len(il)
+    sv = _stored_view(g)
+    stored = 2 if (sv['commonZ'] is not None or ct == '2D') else 3
+    total = len(sv['coords'])
+    variants = {'first-not-one': il + stored, 'entry-zero': np.where(np.arange(n) == n - 1, 0, il),
+                'off-boundary': np.where(np.arange(n) == n // 2, il + 1, il), 'last-beyond': np.append(il[:-1], total + 1),
+                'empty': il[:0], 'negative': np.where(np.arange(n) == n - 1, -il, il)}
+    if n >= 2:
+        sw = il.copy()
+        sw[0 if n == 2 else 1], sw[-1] = il[-1], il[0 if n == 2 else 1]
+        variants['not-increasing'] = sw
+        dup = il.copy()
+        dup[-1] = il[-2]
+        variants['duplicate'] = dup
+    for name, bad in variants.items():
+        if np.array_equal(bad, il):
+            continue
+        d = deepcopy(g)
+        d.LongPrimitivePointIndexList = bad.astype('<i4').tobytes()
+        d._graphic_data = {}
+        st, res = _try(d.get_graphic_data, ct)
+        c2 = dict(case, what='corrupt-index-list', variant=name, index_list=bad.tolist())
+        ctx.case(path='annread/corrupt-index-list', corrupt_variant=name, nontrivial_key=('corrupt', name, stored, min(n, 5)))
+        if st == 'ok':
+            ctx.fail(c2, f'corrupted index list {bad.tolist()[:8]} (valid {il.tolist()[:8]}) accepted; annotations of '
+                         f'{[len(a) for a in res][:8]} points returned', site='corrupt-index-list')
+        reqs.append(('decode', {'gtype': spec['gtype'], 'enc': dict(sv, indexList=bad.tolist()), 'ct': ct}))
+        pending.append((c2, ('ok', [[_tok(row) for row in np.asarray(a)] for a in res]) if st == 'ok' else ('err', _kind(res))))
 
 
 def _stored_view(item):
@@ -658,13 +698,22 @@ def _run_object(ctx, specs, ct, base, idx, r, reqs, pending, stream):
 # ------------------------------------------------------------------ malformed input
 
 def _model_args(gtype, gd, meas_values=()):
-    """arguments of the model's `construct` for a list of 2-D arrays (None if not representable)."""
-    if any(np.asarray(a).ndim != 2 for a in gd):
+    """arguments of the model's `construct` (2-D arrays) / `constructArrs` (some 1-D array); None if not representable."""
+    arrs = [np.asarray(a) for a in gd]
+    if any(a.ndim not in (1, 2) for a in arrs) or any(a.dtype.kind in 'OUSV' for a in arrs):
         return None
-    kinds = {np.asarray(a).dtype.kind for a in gd} or {'f'}
-    dbl = (not kinds <= {'i', 'u'}) and (np.result_type(*[np.asarray(a).dtype for a in gd]) == np.float64 if gd else False)
-    return {'gtype': gtype, 'double': bool(dbl), 'gd': [[_tok(row) for row in np.asarray(a)] for a in gd],
-            'meas': [[None if np.isnan(x) else t for x, t in zip(np.asarray(v, np.float32), _tok(np.asarray(v, np.float32)))] for v in meas_values]}
+    dt = np.result_type(*[a.dtype for a in arrs]) if arrs else np.dtype(np.float64)
+    meas = [[None if np.isnan(x) else t for x, t in zip(np.asarray(v, np.float32), _tok(np.asarray(v, np.float32)))] for v in meas_values]
+
+    def tok2(a):
+        if a.dtype.kind == 'c':
+            a = a.real
+        return _tok(a.astype(np.float64)) if a.ndim == 1 else [_tok(row.astype(np.float64)) for row in a]
+    if any(a.ndim == 1 for a in arrs):
+        return ('constructArrs', {'gtype': gtype, 'kind': dt.kind, 'itemsize': int(dt.itemsize),
+                                  'arrs': [{'vals': tok2(a)} if a.ndim == 1 else {'rows': tok2(a)} for a in arrs]})
+    return {'gtype': gtype, 'kind': dt.kind, 'itemsize': int(dt.itemsize), 'gd': [tok2(a) for a in arrs], 'meas': meas}
+
 
 def _malformed_cases(ctx, idx):
     """(descr, builder) where builder() must raise."""
@@ -673,7 +722,8 @@ def _malformed_cases(ctx, idx):
     s = _gen_group(ctx, 'bad', idx, 1, dim)
     kind = ['closed-polygon', 'point-count', 'non-finite', 'meas-more', 'meas-fewer', 'meas-single', 'meas-nan-padded',
             'meas-nan-short', 'mixed-dims', 'wrong-columns', 'one-dimensional', 'number', 'empty', 'unknown-type',
-            'sop-numbering', 'meas-wrong-type', 'meas-parsed-single', 'meas-parsed-count', 'non-finite-shared-z'][idx % 19]
+            'sop-numbering', 'meas-wrong-type', 'meas-parsed-single', 'meas-parsed-count', 'non-finite-shared-z',
+            'bad-dtype'][idx % 20]
     from highdicom.ann import Measurements
     n = len(s['counts'])
 
@@ -715,19 +765,37 @@ def _malformed_cases(ctx, idx):
         return d, lambda: _build_group(s, graphic_data=gd), _model_args(s['gtype'], gd)
     if kind == 'non-finite-shared-z':
         # 3-D data whose z is the SAME non-finite value for every point of the group (it would become CommonZCoordinateValue)
-        gt = GTYPES[(idx // 19) % 5]
+        gt = GTYPES[(idx // 20) % 5]
         cnt = _gen_counts(r, gt)
-        if (idx // 95) % 2 == 0:
+        if (idx // 100) % 2 == 0:
             cnt = cnt[:1]
         fdt = np.float64 if r.random() < 0.5 else np.float32
         gd, _ = _gen_coords(r, ctx.np_rng('bad', idx), gt, cnt, 3, 'const', 'f8')
-        bad = [np.nan, np.inf, -np.inf][(idx // 19) % 3]
+        bad = [np.nan, np.inf, -np.inf][(idx // 20) % 3]
         gd = [a.astype(fdt) for a in gd]
         for a in gd:
             a[:, 2] = bad
         s['meas'] = []
         d.update(gtype=gt, dim=3, n=len(cnt), value=str(bad))
         return d, lambda: _build_group(s, graphic_data=gd, graphic_type=gt), _model_args(gt, gd)
+    if kind == 'bad-dtype':
+        # dtypes that are neither integer nor float of at most double precision
+        bd = ['c8', 'c16', 'g', '?', 'O', 'U8', 'M8[s]'][(idx // 20) % 7]
+        src = [np.round(a.astype(np.float64)) for a in s['coords']]
+        if bd == '?':
+            gd = [(a > 0) for a in src]
+        elif bd == 'M8[s]':
+            gd = [np.abs(a).astype('i8').astype(bd) for a in src]
+        else:
+            gd = [a.astype(bd) for a in src]
+        if s['gtype'] == 'POLYGON':
+            for a in gd:
+                if np.array_equal(a[0], a[-1]):
+                    a[-1] = a[-1] if bd in ('O', 'U8', 'M8[s]') else a[-1]
+        s['meas'] = []
+        d.update(dtype=bd)
+        margs = _model_args(s['gtype'], gd) if bd in ('c8', 'c16', 'g') else None
+        return d, lambda: _build_group(s, graphic_data=gd), margs
     if kind == 'meas-more':
         extra = r.choice([1, 2, n])
         return dict(d, values=n + extra), lambda: _build_group(s, measurements=meas(np.arange(n + extra) + 1.0)), \
@@ -773,7 +841,9 @@ def _malformed_cases(ctx, idx):
     if kind == 'one-dimensional':
         gd = [a.reshape(-1).astype(np.float32) for a in s['coords']]
         s['meas'] = []
-        return d, lambda: _build_group(s, graphic_data=gd), None
+        if idx % 2:
+            gd = gd[:1] + [a for a in s['coords'][1:]]      # mixed ranks
+        return d, lambda: _build_group(s, graphic_data=gd), _model_args(s['gtype'], gd)
     if kind == 'number':
         k = r.choice([0, -1, -5])
         return dict(d, number=k), lambda: _build_group(s, number=k), None
@@ -818,9 +888,12 @@ def _malformed(ctx, idx, reqs, pending):
     d, build, margs = _malformed_cases(ctx, idx)
     case = {'what': 'malformed', 'idx': idx, 'descr': d}
     st, res = _try(build)
-    if isinstance(margs, tuple):
+    if isinstance(margs, tuple) and margs[0] == 'sopNumbers':
         reqs.append(margs)
         pending.append((dict(case, what='sopNumbers'), ('ok', st == 'ok')))
+    elif isinstance(margs, tuple):
+        reqs.append(margs)
+        pending.append((dict(case, what='construct'), ('ok', None) if st == 'ok' else ('err', _kind(res))))
     elif margs is not None:
         reqs.append(('construct', margs))
         pending.append((dict(case, what='construct'), ('ok', None) if st == 'ok' else ('err', _kind(res))))
